@@ -110,6 +110,8 @@ EXT = {
     'scipy.fftpack.fft': 'fresh', 'scipy.fftpack.ifft': 'fresh', 'scipy.fftpack.fft2': 'fresh',
     'scipy.fftpack.ifft2': 'fresh',
     'scipy.constants.physical_constants': 'scalar',
+    # ---- PyAbel's optional compiled extension (not built here; specification only)
+    'abel.lib.direct._cabel_direct_integral': 'fresh',
 }
 
 # Methods, by name (the type of the receiver is not known statically).
